@@ -182,6 +182,27 @@ Proof.
     apply Forall_app. split; [apply render_string_ok|]. constructor; [unfold okb; lia|]. exact Hv.
 Qed.
 
+(** ... and with any float printer that writes no control byte (ryu writes digits, '-', '.', 'e' only) *)
+Theorem render_with_ok pf : (forall b, Forall okb (pf b)) -> forall j, Forall okb (render_with pf j).
+Proof.
+  intro Hpf. induction j using json_ind'; cbn [render_with]; try apply render_ok.
+  - apply Hpf.
+  - constructor; [unfold okb; lia|]. apply Forall_app. split; [|repeat constructor; unfold okb; lia].
+    apply join_ok; [unfold okb; lia|].
+    induction H; simpl; constructor; auto.
+  - constructor; [unfold okb; lia|]. apply Forall_app. split; [|repeat constructor; unfold okb; lia].
+    apply join_ok; [unfold okb; lia|].
+    induction H as [|[k v] r Hv Hr IH]; simpl; constructor; auto.
+    change (Forall okb (render_string k ++ 58 :: render_with pf v)).
+    apply Forall_app. split; [apply render_string_ok|]. constructor; [unfold okb; lia|]. exact Hv.
+Qed.
+
+Theorem single_line_with pf : (forall b, Forall okb (pf b)) -> forall j, ~ In 10 (render_with pf j) /\ ~ In 13 (render_with pf j).
+Proof.
+  intros Hpf j. pose proof (render_with_ok pf Hpf j) as R. rewrite Forall_forall in R.
+  split; intro H; apply R in H; unfold okb in H; lia.
+Qed.
+
 (** No control byte at all — in particular no LF and no CR — in the rendering of ANY tree. *)
 Theorem no_control_bytes : forall j b, In b (render j) -> 32 <= b.
 Proof. intros j b H. pose proof (render_ok j) as R. rewrite Forall_forall in R. exact (R b H). Qed.
